@@ -196,7 +196,52 @@ class StreamItemQueue:
         Cancels the producer and the pending item futures and returns an
         awaitable for the asynchronous part of the cleanup, or None when the
         whole cleanup could be run synchronously.
+
+        The work nested in results that are still buffered is aborted as well,
+        since these results will never be delivered to the scheduler.
         """
+        abort_result = self._abort(reason)
+        buffered = self._abort_buffered_work(reason)
+        if not buffered:
+            return abort_result
+
+        async def settle() -> None:
+            if abort_result is not None:
+                await abort_result
+            await gather(*buffered, return_exceptions=True)
+
+        return settle()
+
+    def _abort_buffered_work(
+        self, reason: BaseException | None = None
+    ) -> list[Awaitable[None]]:
+        """Abort the work nested in the results that are still buffered."""
+        awaitables: list[Awaitable[None]] = []
+        entries = self._entries
+        while True:
+            try:
+                entry = entries.get_nowait()
+            except QueueEmpty:
+                break
+            if isfuture(entry):
+                if not entry.done() or entry.cancelled() or entry.exception():
+                    continue
+                entry = entry.result()
+            work = getattr(entry, "work", None)
+            if not work:
+                continue
+            for task in work.tasks:
+                abort_result = task.computation.abort(reason)
+                if is_awaitable(abort_result):
+                    awaitables.append(abort_result)
+            for stream in work.streams:
+                abort_result = stream.queue.abort(reason)
+                if is_awaitable(abort_result):
+                    awaitables.append(abort_result)
+        return awaitables
+
+    def _abort(self, reason: BaseException | None = None) -> Awaitable[None] | None:
+        """Cancel the producer and the pending item futures."""
         producer_task = self._producer_task
         running = producer_task is not None and not producer_task.done()
         parked = running and self._producer_parked and not self._producer_cancelled
@@ -258,6 +303,9 @@ class StreamItemQueue:
             self._producer_cancelled = True
             await gather(producer_task, return_exceptions=True)
         await self._settle_pending()
+        buffered = self._abort_buffered_work(reason)
+        if buffered:
+            await gather(*buffered, return_exceptions=True)
         on_abort = self._on_abort
         if on_abort is not None:
             cleanup = on_abort(reason)
